@@ -54,3 +54,34 @@ func TestKnownPopClipped(t *testing.T) {
 		t.Errorf("POP-CLIPPED: bar A finished in pop-completed mode but its final state was never drawn (its extender row: %v)", strings.Contains(all, "extender-of-A 2/2"))
 	}
 }
+
+// Recorded finding F-POP-DELAY: pop-completed mode with WithRenderDelay. Render cycles run during the delay with
+// their output discarded, so a bar that finishes before the delay ends goes through its pop frame unseen and is then
+// dropped: it never reaches the screen.
+func TestKnownPopDuringRenderDelay(t *testing.T) {
+	if os.Getenv("REPLAY_KNOWN") == "" {
+		t.Skip("set REPLAY_KNOWN=1 to replay the recorded finding")
+	}
+	var out strings.Builder
+	refresh := make(chan interface{})
+	delay := make(chan struct{})
+	p := mpb.New(mpb.WithOutput(&out), mpb.WithManualRefresh(refresh), mpb.PopCompletedMode(), mpb.WithRenderDelay(delay), mpb.WithWidth(40))
+	a := p.AddBar(1, mpb.PrependDecorators(decor.Name("barA"), decor.OnComplete(decor.Name(" running"), " FINISHED")))
+	b := p.AddBar(2, mpb.PrependDecorators(decor.Name("barB")))
+	a.Increment()
+	for i := 0; i < 4; i++ {
+		refresh <- time.Now()
+	}
+	close(delay)
+	for i := 0; i < 3; i++ {
+		refresh <- time.Now()
+	}
+	b.IncrBy(2)
+	for i := 0; i < 3; i++ {
+		refresh <- time.Now()
+	}
+	p.Wait()
+	if !strings.Contains(out.String(), "barA FINISHED") {
+		t.Errorf("POP-DELAY: bar A finished during the render delay and was never drawn (output has barB: %v)", strings.Contains(out.String(), "barB"))
+	}
+}
